@@ -165,7 +165,7 @@ where
     let mut overwritten = false;
     let ppb = if bpp < 8 { 8 / bpp } else { 1 } as i32;
 
-    let mut apply = |model: &mut Map<C>, p: Point, c: C, xs_mod: &mut std::collections::BTreeSet<i32>, overwritten: &mut bool| {
+    let apply = |model: &mut Map<C>, p: Point, c: C, xs_mod: &mut std::collections::BTreeSet<i32>, overwritten: &mut bool| {
         if inside(p) {
             if let Some(old) = model.insert((p.x, p.y), c) {
                 if old != c {
